@@ -209,6 +209,8 @@ type TokenOpts struct {
 	// GrantRequested: an integrator that grants whatever the access request says was requested, for every grant type
 	// (the pattern of the reference token endpoint: `if accessRequest.GetRequestedScopes().Has("fosite") { GrantScope }`)
 	GrantRequested bool
+	// GrantScopes narrows what the integrator grants of the requested scopes where it grants at the token endpoint
+	GrantScopes func(requested []string) []string
 }
 
 func (w *World) Token(form url.Values, a Auth) *Obs {
@@ -233,7 +235,11 @@ func (w *World) TokenWith(form url.Values, a Auth, opt TokenOpts) *Obs {
 	if opt.GrantAll {
 		gt := ar.GetGrantTypes()
 		if opt.GrantRequested || gt.ExactOne("client_credentials") || gt.ExactOne("password") || gt.ExactOne("urn:ietf:params:oauth:grant-type:jwt-bearer") {
-			for _, s := range ar.GetRequestedScopes() {
+			scopes := []string(ar.GetRequestedScopes())
+			if opt.GrantScopes != nil {
+				scopes = opt.GrantScopes(scopes)
+			}
+			for _, s := range scopes {
 				ar.GrantScope(s)
 			}
 			for _, s := range ar.GetRequestedAudience() {
